@@ -11,13 +11,18 @@ def check(ctx):
     ctx.rule("C09.W0", "staleness propagates to everything downstream of a rebuilt value (decision table, shared with C03.T1)")
     ctx.rule("C09.W1", "the out-edge snapshot is read from the current graph inside the per-entry rewriting, before any mutation")
     ctx.rule("C09.W2", "a registered output is redirected to its read node before pruning and in the pair returned to run; run executes that pair")
+    ctx.rule("C09.W4", "a failed write (or call) never releases its read node / consumers: no successor enqueue after a failure")
     ctx.rule("C09.W3", "literal pruning (barriers) bridges the full product of current neighbours before removal")
     ctx.assume("what a store's read returns is user code; run-time ordering then follows from C01")
     er = E.discover(ctx.model)
     rr = R.discover(ctx.model, er)
-    S.rule_stale_table(ctx, "C09.W0", rr)
-    W.rule_edge_effect_table(ctx, "C09.W", rr)
-    W.rule_two_entry_chains(ctx, "C09.W", rr)
-    W.rule_snapshot_before_mutation(ctx, "C09.W1", rr)
-    R.rule_run_uses_returned_pair(ctx, "C09.W2", rr)
-    rule_pruning_preserves_paths(ctx, "C09.W3")
+    ctx.run(S.rule_stale_table, "C09.W0", rr)
+    ctx.run(W.rule_edge_effect_table, "C09.W", rr)
+    ctx.run(W.rule_two_entry_chains, "C09.W", rr)
+    ctx.run(W.rule_snapshot_before_mutation, "C09.W1", rr)
+    ctx.run(R.rule_run_uses_returned_pair, "C09.W2", rr)
+    ctx.run(rule_pruning_preserves_paths, "C09.W3")
+    ctx.run(E.rule_enqueue_after_success, "C09.W4", er)
+    ctx.run(E.rule_catch_all, "C09.W4", er)
+    ctx.run(S.rule_stale_check_sees_stored_nodes, "C09.W0", rr)
+    ctx.run(E.rule_callbacks_only_via_engine, "C09.W4", er, [rr.runcb, rr.stalecb])
